@@ -25,3 +25,19 @@ CONFIG["C14"] = dict(
     level_note="Lean kernel; x/crypto chacha20 modelled (buffering + block function) and compared on generated op sequences; constants regenerated from source",
     assumptions=["total output below 2^38 bytes (RFC 8439 32-bit block counter) for restore_store; below 2^64 for read_concat"],
 )
+
+CONFIG["C15"] = dict(
+    lean_modules=["Props.C15"],
+    generators=["C15"],
+    level="proof",
+    rule="UintN at n in {0,1,2,3,2^k,2^k+-1 (k<64),2^64-1} after a wide draw (stale scratch bytes), random n; Permutation/SubPermutation/"
+         "Samples/Shuffle for all (n,m) in [-1,8]x[-1,9], random (n,m) up to 300, negative arguments; every output is predicted exactly by "
+         "the Lean model from its own ChaCha20 keystream; a case is distinct if its protocol line is distinct",
+    trusted_base=COMMON_TB + ["modelled, not verified: x/crypto chacha20 (see C14)"],
+    technique="Lean 4 proof (range, permutation invariant by induction over the Fisher-Yates loop, swap shape, error guards) + differential run",
+    level_text="Theorems for every n, (n,m) and generator state: UintN in range, Permutation is a permutation (count invariant), SubPermutation a prefix of one, "
+               "Samples applies swaps (i,i+j) with i+j<n, error guards. Exact uniformity (counting over tapes) is NOT yet proved: partial.",
+    level_note="Lean kernel; rejection loop modelled with fuel (the model does not return when fuel is exhausted; the harness never hit that); "
+               "uniformity of the distribution is argued in DESIGN.md but only the structural facts are theorems so far",
+    assumptions=["PRG bytes are as in C14"],
+)
